@@ -123,7 +123,11 @@ impl EventLoop {
     pub fn clean(&mut self) {
         self.network = None;
         self.keepalive_timeout = None;
+        // What the state still holds was sent (or re-sent) on the connection that just failed,
+        // i.e. before everything that is still waiting in `pending`: keep that order.
+        let waiting = std::mem::take(&mut self.pending);
         self.pending.extend(self.state.clean());
+        self.pending.extend(waiting);
 
         // drain requests from channel which weren't yet received
         let mut requests_in_channel: Vec<_> = self.requests_rx.drain().collect();
